@@ -99,11 +99,18 @@ func (h *graphqlWSHandler) HandleStart(id string, query string, variables map[st
 				resp = &graphql.Response{
 					Errors: errs,
 				}
+			} else if sourceStreamIn, ok := sourceStream.(*SubscriptionSourceStream); !ok || sourceStreamIn == nil {
+				// a panic here would take the whole process down with it (this runs on the
+				// connection's read loop), so answer with an error instead
+				resp = &graphql.Response{
+					Errors: []*graphql.Error{{
+						Message: "The subscription resolver did not return a source stream.",
+					}},
+				}
 			} else {
 				if h.subscriptions == nil {
 					h.subscriptions = map[string]graphqlWSSubscription{}
 				}
-				sourceStreamIn := sourceStream.(*SubscriptionSourceStream)
 				// Note we can't use the request context here, because the Go http package closes it
 				// after a hijacked connection's handler returns.
 				ctx, cancel := context.WithCancel(context.Background())
